@@ -174,10 +174,17 @@ class Ref:
             elif k == "STRIDED_SLICE":
                 b, e, st = (self.const(ins[i]) for i in (1, 2, 3))
                 if b is None or e is None or st is None or any(int(v) != 1 for v in st.reshape(-1)) or \
-                        any(o.get(m, 0) for m in ("BeginMask", "EndMask", "EllipsisMask", "NewAxisMask", "ShrinkAxisMask")):
+                        any(o.get(m, 0) for m in ("EllipsisMask", "NewAxisMask", "ShrinkAxisMask")):
                     raise Unsupported("general strided slice")
-                idx = tuple(slice(int(x0), int(x1)) for x0, x1 in zip(b.reshape(-1), e.reshape(-1)))
-                val[outs[0]] = val[ins[0]][idx]
+                bm, em = int(o.get("BeginMask", 0)), int(o.get("EndMask", 0))
+                shp_ = val[ins[0]].shape
+                idx = []
+                for ax_, (x0, x1) in enumerate(zip(b.reshape(-1), e.reshape(-1))):
+                    x0, x1 = int(x0), int(x1)
+                    x0 = 0 if (bm >> ax_) & 1 else (x0 + shp_[ax_] if x0 < 0 else x0)
+                    x1 = shp_[ax_] if (em >> ax_) & 1 else (x1 + shp_[ax_] if x1 < 0 else x1)
+                    idx.append(slice(x0, x1))
+                val[outs[0]] = val[ins[0]][tuple(idx)]
             elif k == "CONCATENATION":
                 qo = self.quant(outs[0])
                 if o.get("FusedActivationFunction", 0):
